@@ -7,7 +7,8 @@ CONSTANTS
   MinBuf = 0
   MaxBuf = 2
   RawChoices = {FALSE, TRUE}
+  DevIgnoredWrite = FALSE
   Emit = FALSE
-INVARIANTS TypeOK Prefix ChunkFree ErrSurfaces NoSpurious Later Refines
-PROPERTIES Retry RetrySink
+INVARIANTS TypeOK Accounting Prefix ChunkFree ErrSurfaces NoSpurious Later Refines
+PROPERTIES Accounted Retry RetrySink
 CHECK_DEADLOCK FALSE
